@@ -50,11 +50,12 @@ def _plan(ctx, w):
         'cloud': s.draw(2) == 1,
     }
     if kinds['net']:
-        w_rates = {'drop_request': 0.03, 'drop_response': 0.03, 'duplicate': 0.03, 'cancel_handler': 0.03}
+        w_rates = {'drop_request': 0.03, 'drop_response': 0.03, 'duplicate': 0.03, 'cancel_handler': 0.03,
+                   'slow_request': 0.03}
         plan['net'] = {k: v for k, v in w_rates.items() if s.draw(2)}
     if kinds['db']:
         rates = {'deadlock': 0.004, 'lost_conn': 0.002, 'lost_conn_after': 0.002, 'lost_conn_after_commit': 0.004,
-                 'lost_conn_before_commit': 0.004, 'too_many_conn': 0.005}
+                 'lost_conn_before_commit': 0.004, 'too_many_conn': 0.005, 'stall': 0.004}
         plan['db'] = {k: v for k, v in rates.items() if s.draw(2)}
     if kinds['worker']:
         rates = {'clock_skew': 0.5, 'clock_jump': 0.1, 'skip_started': 0.15, 'dup_report': 0.2, 'late_report': 0.08}
@@ -193,6 +194,12 @@ async def legacy_actor(ctx, w, user, st):
     stt, _ = await call('PATCH', f'/api/v1alpha/batches/{bid}/close')
     log.add('legacy', 'close', bid, stt)
     ctx.probe('legacy_batch_closed' if stt == 200 else 'legacy_close_failed')
+    if stt != 200:
+        # (the deprecated close endpoint of this tree always answers 500: its query names a column `deleted` that
+        # job_groups does not have; a REST client can still commit update 1 through the current endpoint)
+        stt, _ = await call('PATCH', f'/api/v1alpha/batches/{bid}/updates/1/commit')
+        log.add('legacy', 'commit', bid, stt)
+        ctx.probe('legacy_batch_committed' if stt == 200 else 'legacy_commit_failed')
     if s.draw(3) == 0:
         await asyncio.sleep(s.rint(1, 30))
         stt, _ = await call('PATCH', f'/api/v1alpha/batches/{bid}/cancel')
@@ -240,6 +247,12 @@ def run(ctx):
         if cfg.draw(3) == 0:
             clients.append(asyncio.create_task(legacy_actor(ctx, w, users[0], st), name='legacy'))
         chaos = asyncio.create_task(chaos_actor(ctx, w, st), name='chaos')
+
+        async def memory_sampler():
+            while True:
+                await asyncio.sleep(5)
+                o.check_memory(loop.time())
+        sampler = asyncio.create_task(memory_sampler(), name='memory-sampler')
         done, pending = await asyncio.wait(clients, timeout=400)
         for t in done:
             if t.exception() is not None:
